@@ -152,6 +152,21 @@ def handleE (req : Json) : Except String Json := do
                            | some c => Json.arr #[shapeJ c]),
                     ("can", toJson (canBroadcast s o))])
       pure (Json.mkObj [("bcs", Json.arr out.toArray)])
+  | "call" =>
+      -- inline call boundary: items {decl: [[name, ty]], dflt: [[name, ty]], pos: [ty], kw: [[name, ty]]}
+      let named (j : Json) : Except String (String × Ty) := do
+        let a ← fromJson? (α := Array Json) j
+        match a.toList with
+        | [.str n, t] => do pure (n, (← parseTy t))
+        | _ => throw "bad named type"
+      let items ← (← req.getObjValAs? (Array Json) "items").toList.mapM (fun j => do
+        let decl ← (← j.getObjValAs? (Array Json) "decl").toList.mapM named
+        let dflt ← (← j.getObjValAs? (Array Json) "dflt").toList.mapM named
+        let pos ← (← j.getObjValAs? (Array Json) "pos").toList.mapM parseTy
+        let kw ← (← j.getObjValAs? (Array Json) "kw").toList.mapM named
+        pure (decl, dflt, pos, kw))
+      pure (Json.mkObj [("call", Json.arr (items.map (fun (decl, dflt, pos, kw) =>
+        toJson (callAccepted tbl decl dflt pos kw))).toArray)])
   | "rank" =>
       let ss ← (← req.getObjValAs? (Array Json) "shapes").toList.mapM parseShape
       pure (Json.mkObj [("rank", Json.arr (ss.map (fun x => optJ (fun (n : Nat) => toJson n) (Shape.maybeRank x))).toArray)])
